@@ -91,7 +91,7 @@ def recipe(r, d, maxd):
                                           'subA', 'subB', 'masked']),
                 'x': r.randint(-10, 10)}
     if k < 0.93:
-        m = r.choice(['f', 'f', 'i', 'nan', 'inf', '-inf', 'z', 'neg', 'arr'])
+        m = r.choice(['f', 'f', 'i', 'nan', 'inf', '-inf', 'z', 'neg', 'arr', 'arr2'])
         out = {'t': 'q', 'm': m, 'u': _unit_recipe(r)}
         if m == 'f':
             out['x'] = _float_recipe(r)
@@ -101,6 +101,9 @@ def recipe(r, d, maxd):
             out['x'] = -r.randint(1, 1000) / 8
         elif m == 'arr':
             out['x'] = [r.randint(-4, 4) / 4 for _ in range(r.randint(1, 3))]
+        elif m == 'arr2':
+            ncol = r.randint(1, 3)
+            out['x'] = [[r.randint(-4, 4) / 4 for _ in range(ncol)] for _ in range(r.randint(1, 3))]
         return out
     if k < 0.97:
         return {'t': 'u', 'u': _unit_recipe(r)}
@@ -114,7 +117,17 @@ def bad_recipe(r):
     return {'t': 'bad', 'k': kind, 'inner': recipe(r, 2, 3)}
 
 
+LOOKALIKES = ['!units[5 fg]', '!units[1 femtogram]', '!units[hello]', '!units[nan]', '!units[2.5 / second]']
+
+
 def gen(r, tier, i):
+    k = r.random()
+    if k < 0.004:
+        # known finding F4: a plain string that has the form of a serialized quantity
+        return {'kind': 'lookalike', 'value': {'t': 's', 'x': r.choice(LOOKALIKES)}, 'wrap': r.choice(['', 'dict', 'list'])}
+    if k < 0.008:
+        # known finding F5: quantities in offset units
+        return {'kind': 'offset', 'value': {'t': 'c', 'x': None}, 'unit': r.choice(['degC', 'degF']), 'mag': r.choice([1, 0, -3.5, 25.0])}
     maxd = 4 if tier == 'quick' else 5
     if r.random() < 0.12:
         return {'kind': 'reject', 'value': bad_recipe(r)}
@@ -375,6 +388,26 @@ def run(spec):
     rc = spec['value']
     x = build(rc, env)
     classes = set()
+    if spec['kind'] in ('lookalike', 'offset'):
+        if spec['kind'] == 'offset':
+            x = env['units'].Quantity(spec['mag'], getattr(env['units'], spec['unit']))
+        elif spec.get('wrap') == 'dict':
+            x = {'k': x}
+        elif spec.get('wrap') == 'list':
+            x = [x, 1]
+        try:
+            d = S.deserialize_value(S.serialize_value(x))
+            if spec['kind'] == 'offset':
+                ok = hasattr(d, 'units') and d.units == x.units and d.magnitude == x.magnitude
+            else:
+                ok = type(d) is type(x) and d == x
+            detail = ('deserialize(serialize(x)) != x', repr(x), repr(d))
+        except Exception as e:
+            ok, detail = False, ('round trip raised', repr(x), type(e).__name__, str(e)[:120])
+        contracts.SINK.reset()          # (the contracts judge the same calls: one finding, one label)
+        V.check('roundtrip', ok, detail,
+                mechanism='string-looks-like-serialized-quantity' if spec['kind'] == 'lookalike' else 'offset-unit-quantity')
+        return {'viol': list(V), 'evals': V.evals, 'nontrivial': True, 'classes': [spec['kind']], 'summary': {'kind': spec['kind']}}
     if spec['kind'] == 'reject':
         try:
             out = S.serialize_value(x)
